@@ -206,10 +206,10 @@ example (C : Ctx D) (s : St D) (hr : (s.env "r").isSome = true) :
   simpa using this
 
 /-- the recogniser finds the shapes it is meant to find (a three-operand chain counts twice) -/
-example : countShapesL none (orShape "r" [] (.bool true) (thenSet [] "r" (.bool false)) ++ [.ite (.un "!" (.var "r")) (thenSet [] "r" (.bool true)) []]) = ⟨0, 2, 0⟩ := by decide
-example : countShapesL none (orShape "r" [] (.bool true) (thenSet [] "r" (.bool false))) = ⟨0, 1, 0⟩ := by decide
-example : countShapesL none (andShape "r" [] (.bool true) [.ite (.var "f") [.set "f" (.bool false), .set "r" (.var "x")] []]) = ⟨1, 0, 0⟩ := by decide
-example : countShapesL none (iteShape [] (.var "c") (thenSet [] "r" (.int 1)) (thenSet [] "r" (.int 2))) = ⟨0, 0, 1⟩ := by decide
+example : countShapesL [] (orShape "r" [] (.bool true) (thenSet [] "r" (.bool false)) ++ [.ite (.un "!" (.var "r")) (thenSet [] "r" (.bool true)) []]) = ⟨0, 2, 0⟩ := by decide
+example : countShapesL [] (orShape "r" [] (.bool true) (thenSet [] "r" (.bool false))) = ⟨0, 1, 0⟩ := by decide
+example : countShapesL [] (andShape "r" [] (.bool true) [.ite (.var "f") [.set "f" (.bool false), .set "r" (.var "x")] []]) = ⟨1, 0, 0⟩ := by decide
+example : countShapesL [] (iteShape [] (.var "c") (thenSet [] "r" (.int 1)) (thenSet [] "r" (.int 2))) = ⟨0, 0, 1⟩ := by decide
 
 end FaxVerif.C04
 
